@@ -11,7 +11,7 @@ TB_VERUS = TB_COMMON + ['Verus 0.2026.09.13 + Z3 (vstd models of std)', '64-bit 
 
 
 def run_verus(part, tier, workdir, seed):
-    r = verus_engine.run_unit(part['unit'], workdir, timeout=part.get('timeout', 600))
+    r = verus_engine.run_unit(part['unit'], workdir, timeout=int(part.get('timeout', 600) * float(os.environ.get('VERIF_TIMEOUT_FACTOR', '3'))))
     r['backend'] = 'z3 (via verus)'
     r['samples'] = ['%s [%s ms, rlimit %s, %s]' % (f['function'], f['time_ms'], f['rlimit'], 'ok' if f['success'] else 'FAILED')
                     for f in r.get('per_function', [])][:12]
